@@ -101,7 +101,7 @@ func DrawHistory(c *Ctx, rng *rand.Rand, o HistoryOpts) *History {
 		globals = []string{}
 	}
 	h := &History{World: w, Loc: rng.IntN(len(locNames))}
-	cur := copyMap(w.Files)
+	cur := withDefaultGoMod(w.Module, w.Files)
 
 	checkedGen := func() Op {
 		g := &GenSpec{Plan: planIdentity(), Canon: canon, Globals: globals}
@@ -136,7 +136,7 @@ func DrawHistory(c *Ctx, rng *rand.Rand, o HistoryOpts) *History {
 		switch {
 		case choice == 0 && spec != nil: // EditTypes
 			spec = spec.Bump()
-			nw := spec.Render()
+			nw := withDefaultGoMod(w.Module, spec.Render())
 			h.Ops = append(h.Ops, editOps("EditTypes", cur, nw)...)
 			cur = nw
 		case choice == 1 && spec != nil: // Break / Heal converters
@@ -160,12 +160,12 @@ func DrawHistory(c *Ctx, rng *rand.Rand, o HistoryOpts) *History {
 					}
 				}
 			}
-			nw := spec.Render()
+			nw := withDefaultGoMod(w.Module, spec.Render())
 			h.Ops = append(h.Ops, editOps(label, cur, nw)...)
 			cur = nw
 		case choice == 1 && corpus != nil: // switch to another version of the input (another scenario)
 			nwW := corpus[rng.IntN(len(corpus))]
-			nw := copyMap(nwW.Files)
+			nw := withDefaultGoMod(nwW.Module, nwW.Files)
 			h.Ops = append(h.Ops, editOps("SwitchInput("+nwW.Name+")", cur, nw)...)
 			cur = nw
 			canon = nwW.Patterns
@@ -201,7 +201,7 @@ func DrawHistory(c *Ctx, rng *rand.Rand, o HistoryOpts) *History {
 				spec.Convs[i].OutPkg = ""
 				alignShared(spec, i)
 			}
-			nw := spec.Render()
+			nw := withDefaultGoMod(w.Module, spec.Render())
 			h.Ops = append(h.Ops, editOps("ChangeLayout", cur, nw)...)
 			cur = nw
 		default:
@@ -262,4 +262,14 @@ func alignShared(spec *LSpec, k int) {
 			return
 		}
 	}
+}
+
+// withDefaultGoMod returns a copy of the input set that always carries a go.mod (a world
+// without its own gets the default one), so that switching input versions never removes it.
+func withDefaultGoMod(module string, files map[string]string) map[string]string {
+	m := copyMap(files)
+	if _, ok := m["go.mod"]; !ok {
+		m["go.mod"] = "module " + module + "\ngo 1.18\n"
+	}
+	return m
 }
